@@ -85,6 +85,7 @@ type HopSpec struct {
 	From    string          `json:"from,omitempty"`   // responder address override
 	DelayUs int             `json:"delay_us,omitempty"` // 0 = default
 	Silent  bool            `json:"silent,omitempty"`
+	LostReply bool          `json:"lost_reply,omitempty"` // the probe reached the responder but its reply was lost
 	Copies  int             `json:"copies,omitempty"`  // extra identical copies, each 1ms later
 	Perturb *simnet.Perturb `json:"perturb,omitempty"`
 	Tag     string          `json:"tag,omitempty"`
@@ -93,6 +94,8 @@ type HopSpec struct {
 	// AliasTTL: the perturbed per-probe identifier is the identifier of this other probe of the same run;
 	// if that probe has been sent when the packet is built, the packet is a genuine reply to it
 	AliasTTL int `json:"alias_ttl,omitempty"`
+	// Extra perturbations that keep the reply genuine (e.g. NAT rewrote the quoted source)
+	Rewrite []simnet.Perturb `json:"rewrite,omitempty"`
 }
 
 type ByteMut struct {
@@ -341,7 +344,7 @@ func (s *Script) OnProbe(n *simnet.Net, sink *simnet.Sink, p *refcodec.Packet, r
 		s.held[sink.ID] = append([]uint8{uint8(t)}, s.held[sink.ID]...)
 	}
 	ctx := simnet.BuildCtx{ServerSeq: 0x51515151, SackInitSeq: initSeq, SackHeld: s.held[sink.ID], TSVal: 0x22220000 + uint32(t)}
-	if !(has && hs.Silent) {
+	if !(has && (hs.Silent || hs.LostReply)) {
 		form := hs.Form
 		from := Router(vi.V6, sc.Flow, t)
 		if atDest {
@@ -359,6 +362,12 @@ func (s *Script) OnProbe(n *simnet.Net, sink *simnet.Sink, p *refcodec.Packet, r
 		}
 		if b, err := simnet.Build(form, p, from, ctx); err == nil {
 			genuine := hs.Perturb == nil && hs.Truncate == 0 && len(hs.Mutate) == 0
+			for _, rw := range hs.Rewrite {
+				b, err = rw.Apply(b)
+				if err != nil {
+					panic(fmt.Sprintf("rewrite %+v on %s: %v", rw, form, err))
+				}
+			}
 			if hs.Perturb != nil {
 				orig := b
 				b, err = hs.Perturb.Apply(b)
